@@ -1,10 +1,10 @@
 package main
 
 import (
-	"golang.org/x/tools/go/ssa"
 	"fmt"
 	"go/constant"
 	"go/types"
+	"golang.org/x/tools/go/ssa"
 	"math/big"
 	"strings"
 )
@@ -30,6 +30,7 @@ type SpecEnv struct {
 	allocBefore *Term
 	paramsFirst bool // ensures: parameter names mean entry values
 	params      map[string]SVal
+	exit        *State // sets clauses: the state at the callee's return, read through post(e)
 }
 
 func (env *SpecEnv) st() *State {
@@ -484,6 +485,14 @@ func (env *SpecEnv) call(n *ECall) SVal {
 			}
 		}
 		unsupp("no local variable %s", id.Name)
+	case "post":
+		// in a sets clause: the value of e when the function returns (sets clauses otherwise read the entry state)
+		if env.exit == nil {
+			unsupp("post(e) is only meaningful in a sets clause")
+		}
+		sub := *env
+		sub.pre, sub.post, sub.inOld, sub.exit = env.pre, env.exit, false, nil
+		return sub.eval(n.Args[0])
 	case "old":
 		saved := env.inOld
 		env.inOld = true
